@@ -15,8 +15,10 @@ from collections import Counter
 import vlib
 from vlib import coq_list
 
-HEADER = ('From Coq Require Import List String NArith.\nFrom Teleport Require Import Base.Bytes Gen.HazardsGen Model.MapLoops '
-          'Model.MapLoopsCheck Model.DeterminismCheck.\nImport ListNotations.\nOpen Scope string_scope.\nOpen Scope N_scope.\n')
+_H = 'From Coq Require Import List String NArith.\nFrom Teleport Require Import Base.Bytes %s.\nImport ListNotations.\nOpen Scope string_scope.\nOpen Scope N_scope.\n'
+HEADER_INV = _H % 'Gen.HazardsGen Model.MapLoops Model.DeterminismCheck'   # depends on the regenerated inventory
+HEADER_REPLAY = _H % 'Model.ReplayCheck'                                    # does not
+HEADER_ML = _H % 'Model.MapLoops Model.MapLoopsCheck'
 
 FIELDS = {1: 'operation kind', 2: 'outcome class (returned / panicked)', 3: 'response code', 4: 'gas wanted / used',
           5: 'response data', 6: 'events (attribute order inside an event ignored)', 7: 'validator / consensus-parameter updates',
@@ -43,7 +45,7 @@ def inventory(run):
                        'hazard_constructs; hazards_allowed; N.of_nat (List.length finding_groups); typecheck_errors; '
                        'files_scanned; range_statements]'),
           ('Q_findings', 'finding_groups')]
-    res = vlib.coq_eval_lists(run.work, 'inventory.v', HEADER, '', qs)
+    res = vlib.coq_eval_lists(run.work, 'inventory.v', HEADER_INV, '', qs)
     if res['_rc'] != 0 or 'Q_counts' not in res:
         return None, res['_out'][-3000:]
     nums = [int(x) for x in re.findall(r'\d+', res['Q_counts'])]
@@ -52,7 +54,7 @@ def inventory(run):
              'hazard_groups_that_are_findings', 'typecheck_errors', 'files_scanned', 'range_statements_seen']
     inv = dict(zip(names, nums))
     um = coq_strings(res.get('Q_unmatched'))
-    inv['unmatched_sites'] = [dict(file=um[i], function=um[i + 1], hash=um[i + 2]) for i in range(0, len(um) - 2, 3)]
+    inv['unmatched_sites'] = [dict(file=um[i], function=um[i + 1], hash=um[i + 2], function_hash=um[i + 3]) for i in range(0, len(um) - 3, 4)]
     ua = res.get('Q_unallowed') or ''
     inv['unallowed_hazards'] = [dict(file=f, function=g, constructs=int(c)) for f, g, c in
                                 re.findall(r'\("((?:[^"]|"")*)",\s*"((?:[^"]|"")*)",\s*(\d+)\)', ua)]
@@ -67,8 +69,14 @@ def site_details(inv):
         txt = open(p, encoding='utf-8', errors='replace').read()
     except OSError:
         return
+    try:
+        table = open(os.path.join(vlib.THEORIES, 'Model', 'MapLoops.v'), encoding='utf-8', errors='replace').read()
+    except OSError:
+        table = ''
     for s in inv['unmatched_sites']:
-        m = re.search(r'"%s",\s*\n\s*"((?:[^"]|"")*)"' % re.escape(s['hash']), txt)
+        s['why'] = ('the enclosing function changed around an unchanged loop (what is done with the loop result is part of the obligation)'
+                    if '"%s"' % s['hash'] in table else 'new or changed range-over-map statement')
+        m = re.search(r'"%s", "[0-9a-f]*",\s*\n\s*"((?:[^"]|"")*)"' % re.escape(s['hash']), txt)
         if m:
             s['statement'] = m.group(1).replace('""', '"')[:1500]
     for h in inv['unallowed_hazards']:
@@ -160,7 +168,7 @@ def evaluate(run, cases, tag):
         i, sh = ix
         defs = 'Definition cases : list (list (list obs)) := %s.\n' % coq_list(
             [coq_list([coq_list([obs_term(o) for o in tr]) for tr in c]) for c in sh])
-        res = vlib.coq_eval_lists(run.work, '%s_%d.v' % (tag, i), HEADER, defs, [('D', 'replay_disagreements cases')])
+        res = vlib.coq_eval_lists(run.work, '%s_%d.v' % (tag, i), HEADER_REPLAY, defs, [('D', 'replay_disagreements cases')])
         d = vlib.parse_nat_tuples(res.get('D'), 3)
         if res['_rc'] != 0 or d is None:
             return ('error', res['_out'][-3000:])
@@ -269,7 +277,7 @@ def check(run):
         nonlocal t0
         timing[name] = round(time.time() - t0, 1)
         t0 = time.time()
-    pr = run.proof_stage(extra_modules=['theories/Props/C14_inventory.v'])
+    pr = run.proof_stage(extra_modules=['theories/Props/C14_inventory.v', 'theories/Model/MapLoopsCheck.v'])
     lap('proofs')
     inv, log = inventory(run)
     lap('inventory')
@@ -380,7 +388,14 @@ def check(run):
         pass  # a concrete disagreement was reported above
     elif not run.proof_ok():
         run.proof_violation()
-    if ml.get('mismatches'):
+    for c in ml.get('unstable_samples') or []:   # the real function is not a function of its input: a concrete witness
+        small = min((x for x in [c]), key=lambda x: len(x.get('entries') or []))
+        run.violation(dict(kind='order-dependent-function', what=c['unstable'], input=small,
+                           explanation='the real function, called repeatedly in one process on the same validator set, gave different '
+                                       'results (Go map iteration order); rerun: harness/bin/c14 maploops'),
+                      name='replay_unstable.json')
+        break
+    if ml.get('mismatches') and not ml.get('unstable'):
         run.violation(dict(kind='correspondence', what='a map-loop model of Model/MapLoops.v disagrees with the real function',
                            cases=ml['mismatch_samples'], broken='correspondence Model.MapLoops <-> real loops'),
                       name='replay_maploops.json', no_input=True)
@@ -431,11 +446,12 @@ def maploops_evaluate(run, cases):
     def one(ix):
         i, sh = ix
         defs = 'Definition cases : list mlcase := %s.\n' % coq_list([mlcase_term(c) for c in sh])
-        res = vlib.coq_eval_lists(run.work, 'maploops_%d.v' % i, HEADER, defs, [('M', 'ml_mismatches cases')])
+        res = vlib.coq_eval_lists(run.work, 'maploops_%d.v' % i, HEADER_ML, defs, [('M', 'ml_mismatches cases')])
         m = vlib.parse_nat_tuples(res.get('M'), 2)
         if res['_rc'] != 0 or m is None:
             return ('error', res['_out'][-2000:])
         return [(c + i * size, k) for c, k in m]
+    unstable = [c for c in cases if c.get('unstable')]
     mm = []
     for o in vlib.parallel(one, list(enumerate(shards)), workers=6):
         if o and o[0] == 'error':
@@ -445,7 +461,8 @@ def maploops_evaluate(run, cases):
     sizes = Counter(min(len(c.get('entries') or []), 10) for c in cases if c['kind'] == 'validators')
     return dict(evaluations=len(cases), cases_by_kind=dict(kinds), validator_set_sizes={str(k): v for k, v in sorted(sizes.items())},
                 inturn_outcomes=dict(Counter({0: 'false', 1: 'true', 2: 'panic'}[c['real_inturn']] for c in cases if c['kind'] == 'validators')),
-                mismatches=len(mm), mismatch_samples=[dict(kind=k, case=cases[c]) for c, k in mm[:3]])
+                mismatches=len(mm), mismatch_samples=[dict(kind=k, case=cases[c]) for c, k in mm[:3]],
+                unstable=len(unstable), unstable_samples=unstable[:2])
 
 
 def replay(path):
@@ -454,6 +471,10 @@ def replay(path):
         print('no history in the replay file (%s): static obligation — rebuild with: ./check C14 quick' % rp.get('kind'))
         return 2
     run = vlib.Run('C14_replay', 'quick')
+    okc, outc = vlib.coq_build(['theories/Model/ReplayCheck.vo'])
+    if not okc:
+        print('cannot build Model/ReplayCheck.vo: ' + outc[-500:])
+        return 2
     ok, out = vlib.build_harness(['c14'])
     if not ok:
         print('cannot build harness: ' + out[-500:])
